@@ -37,8 +37,15 @@ QUERIES = [
     "member(X, [1,2,3]), X > 1.",
     "assertz(h28(1)), retract(h28(1)).",
     "X = f(Y, \"str\", [1,2|Z]), Y = 2.5.",
+    "catch(atom_length(_, _), b, true).",
 ]
 KS = [0, 1, None]
+
+
+def relsrc(where):
+    f = where.rsplit(":", 1)[0]
+    k = f.find("src/")
+    return f[k:] if k > 0 else f
 
 
 def bound_text(tier):
@@ -83,7 +90,12 @@ def jterm(j):
 def run_history(w, hist):
     ops = [{"k": "query", "text": QUERIES[qi], "take": k} for (qi, k) in hist]
     w.rpc({"op": "new_machine"}, timeout=120)
-    r = w.rpc({"op": "api", "ops": ops, "fresh_after": False}, timeout=60)
+    try:
+        r = w.rpc({"op": "api", "ops": ops, "fresh_after": False}, timeout=20)
+    except pool.WorkerDied as d:
+        # the API call never returned (or the process died): attribute it to the history
+        w.restart()
+        return [{"dead": "hang" if d.how == "hang" else "crash rc=%s" % d.rc}] + [{"skipped": True}] * (len(hist) - 1)
     return r["r"]
 
 
@@ -96,10 +108,16 @@ def reference(w):
         return _ref
     for qi, q in enumerate(QUERIES):
         res = run_history(w, [(qi, None)])[0]
-        if "panic" in res:
-            raise pool.MachineryError("C28: reference query %r panics on a fresh machine: %r" % (q, res))
+        if "panic" in res or "dead" in res:
+            # the query misbehaves even on a fresh machine: reported by the "single"
+            # shard; it cannot serve as a step of longer histories
+            res = {"broken": res.get("dead") or "panic", "answers": [], "detail": res}
         _ref[qi] = res
     return _ref
+
+
+def usable(ref):
+    return [qi for qi in range(len(QUERIES)) if "broken" not in ref[qi]]
 
 
 def shape_violation(res):
@@ -170,10 +188,12 @@ def variant(a, b):
 def judge_step(ref, qi, k, res):
     """-> violation kind or None"""
     if "panic" in res:
-        return "panic@%s: %s" % (res.get("where", "").replace("/repo/", "").rsplit(":", 1)[0],
+        return "panic@%s: %s" % (relsrc(res.get("where", "")),
                                  __import__("re").sub(r"\d+", "N", res["panic"])[:100])
     if res.get("skipped"):
         return None
+    if "dead" in res:
+        return "run_query never returned (%s)" % res["dead"]
     want = ref[qi]["answers"]
     got = res["answers"]
     if k is None:
@@ -217,6 +237,10 @@ def run_shard(w, shard, tier):
     if shard[0] == "single":
         ref = reference(w)
         for qi in range(len(QUERIES)):
+            if "broken" in ref[qi]:
+                acc.case(True, "single_broken", sample={"query": QUERIES[qi]})
+                acc.violation("fresh machine: run_query %s [%s]" % (ref[qi]["broken"], QUERIES[qi]), {"single": qi}, observed=ref[qi]["detail"])
+                continue
             sv = shape_violation(ref[qi])
             dv = driver_check(w, qi, ref[qi])
             acc.case(True, "single_ok" if not (sv or dv) else "single_violation", sample={"query": QUERIES[qi], "answers": ref[qi]["answers"]})
@@ -226,11 +250,18 @@ def run_shard(w, shard, tier):
                 acc.violation("fresh machine: %s [%s]" % (sv, QUERIES[qi]), {"single": qi}, observed=ref[qi])
             if dv:
                 acc.violation("fresh machine: %s [%s]" % (dv.split(":")[0], QUERIES[qi]), {"single": qi}, observed=dv)
+        ok = set(usable(ref))
         for s in st:
-            check_history(w, [s], acc)
+            if s[0] in ok:
+                check_history(w, [s], acc)
         return acc.result()
     _, d, s0 = shard
-    first = st[s0]
+    ok = set(usable(reference(w)))
+    st = [s for s in st if s[0] in ok]
+    first = steps()[s0]
+    if first[0] not in ok:
+        acc.case(False, "skipped_broken_query")
+        return acc.result()
     for depth in range(2, d + 1):
         for rest in itertools.product(st, repeat=depth - 1):
             check_history(w, [first] + list(rest), acc)
@@ -242,6 +273,8 @@ def recheck(w, case, tier):
     if "single" in case:
         ref = reference(w)
         qi = case["single"]
+        if "broken" in ref[qi]:
+            return {"sig": "fresh machine: run_query %s [%s]" % (ref[qi]["broken"], QUERIES[qi]), "case": case, "observed": ref[qi]["detail"]}
         sv = shape_violation(ref[qi])
         dv = driver_check(w, qi, ref[qi])
         if sv:
